@@ -35,6 +35,12 @@ Theorem C06_regexp_full : forall e s, search (wrap_new e) s = full_match e s.
 Proof. exact wrap_new_full. Qed.
 Print Assumptions C06_regexp_full.
 
+(* the matcher only moves forward and never past the end of the name, whatever the expression (`.` and classes read one UTF-8
+   code point, an invalid byte counting as one) *)
+Theorem C06_regexp_stays_inside : forall s e i j, (i <= length s)%nat -> In j (ends e s i) -> (i <= j <= length s)%nat.
+Proof. exact ends_bounded. Qed.
+Print Assumptions C06_regexp_stays_inside.
+
 (* the defect that was repaired: "^" + p + "$" does not anchor a top-level alternation *)
 Theorem C06_regexp_old_refuted : exists e s, search (wrap_old e) s = true /\ full_match e s = false.
 Proof. exact wrap_old_refuted. Qed.
